@@ -62,6 +62,12 @@ CHECKS = {
  "C18": (E2, "exhaustive preemption-bounded schedule exploration of cyclic programs entered at different members by different threads; values compared with the least-fixpoint / SCC reference",
          "2-cycles, 3-cycles, nested a<->b<->c and conditional cycles with fixpoint (default and joining cycle_fn) and fallback recovery, entered by 2-3 threads at different members, two revisions (the write reshapes the cycle); every schedule with <= k preemptions must terminate with every result equal to the C12/C13 reference.",
          "As C16; k=1 on all harnesses and k=2 on the smallest in quick, k=2 (k=1 for 3 threads) in thorough.", "5/C18"),
+ "C20": (E2, "exhaustive preemption-bounded schedule exploration of reader threads on clones against a concurrent writer (input write, synthetic write, set_lru_capacity, trigger_cancellation); outcome-class and post-write reference oracle",
+         "Acyclic, fixpoint (2-cycle, nested), cycle_result and lru programs; 2 reader threads run requests under Cancelled::catch and drop their clone when done or cancelled, while the main handle performs the write at every point the scheduler can place it (k=1-2 preemptions, thorough +1): the writer always returns (otherwise the engine reports a deadlock); every reader result is the OLD revision's reference value, Cancelled::PendingWrite, or PropagatedPanic when another reader was cancelled; afterwards every node equals the from-scratch reference of the NEW revision (no provisional fixpoint value of the abandoned iteration survives).",
+         "As C16. The cycle_result scenario hits the known C13 defect (KNOWN-FINDING).", "5/C20"),
+ "C21": (E2, "exhaustive preemption-bounded schedule exploration of a handle cancelled through its token by another thread at every schedulable moment, with and without a third handle that overlaps",
+         "Thread A runs 1-2 requests (acyclic and fixpoint programs), thread B calls cancel() once, an optional thread C requests an overlapping query; afterwards A repeats its requests twice. In every schedule: A's results are the reference or Cancelled::Local, at most one computation is cancelled per cancel(), the request after a cancelled one runs normally, no fixpoint activation is unwound by the cancellation, C always gets the reference (never Local / PropagatedPanic).",
+         "CancellationToken uses a std atomic that is not a scheduling point; the cancelling thread yields once before cancel(), so the cancellation can land at every scheduling point of A within the preemption bound.", "5/C21"),
 }
 
 NOT_YET = {}
